@@ -152,7 +152,10 @@ where
         // never completes its proxy protocol header) cannot hold up the accept loop
         self.tracker.spawn(async move {
             // everything the client can stall is bound by the connection timeout
-            let deadline = connection_start + connection_timeout;
+            // (a timeout too large to be represented means there is no deadline in practice)
+            let deadline = connection_start
+                .checked_add(connection_timeout)
+                .unwrap_or_else(|| connection_start + Duration::from_secs(60 * 60 * 24 * 365 * 30));
 
             let (mut stream, client_addr) = if let Some(proxy_config) = proxy_protocol {
                 let proxied = ProxiedStream::create_from_tokio(stream, proxy_config);
